@@ -1,4 +1,4 @@
-CONSTANTS Depth = 5 MaxH = 3 SelSet = "small" AsgSet = "full" FunSet = "small" ReadSet = "full"
+CONSTANTS Depth = 4 MaxH = 4 SelSet = "full" AsgSet = "full" FunSet = "full" ReadSet = "full"
 SPECIFICATION Spec
 INVARIANT RefinesModuloStale
 INVARIANT WrongOnlyIfStale
